@@ -396,7 +396,10 @@ class Printer:
             if ck in PASS_CASTS:
                 return self.expr(inner[0])
             if ck in ARITH_CASTS:
-                return f'(({self.ctype(n["type"])})({self.expr(inner[0])}))'
+                ct = self.ctype(n['type'])
+                if ck == 'FloatingToIntegral' and ct == 'int64_t':
+                    return f'NV_F2I64({self.expr(inner[0])})'
+                return f'(({ct})({self.expr(inner[0])}))'
             if ck == 'NullToPointer':
                 return 'NULL'
             if ck == 'ToVoid':
